@@ -154,6 +154,12 @@ macro_rules! combo {
           let dd = $rng.below(4.min(max_depth as u64) + 1) as u8;
           (dd, random_moc_ranges::<T, QQ>($rng, dd, 6))
         }
+        // directed: as many ranges as make the FITS data unit an EXACT multiple of 2880 bytes (no padding), and one less
+        5 | 6 if k < 8 => {
+          let n_exact = 2880u64 / (2 * (w as u64 / 8)) - (if k == 6 { 1 } else { 0 });
+          $sink.count("shape:fits-data-unit-exact-block");
+          (max_depth, (0..n_exact).map(|i| 2 * i..2 * i + 1).collect())
+        }
         _ => {
           let dd = $rng.below(max_depth as u64 + 1) as u8;
           (dd, random_moc_ranges::<T, QQ>($rng, dd, 6))
@@ -266,6 +272,13 @@ macro_rules! combo {
             Some((hlen, n1, n2)) => {
               let datalen = buf.len() - hlen;
               let used = (n1 * n2) as usize;
+              if datalen != (used + 2879) / 2880 * 2880 {
+                // the data unit is completed to the NEXT multiple of 2880 bytes, no further (padding < 2880: `padding_spec`)
+                $sink.impl_failures.push(format!(
+                  "fits-data-unit-length: {} u{} depth {} ({} ranges): {} data bytes written for NAXIS1*NAXIS2 = {} (expected {})",
+                  q, w, d, l.len(), datalen, used, (used + 2879) / 2880 * 2880
+                ));
+              }
               if n2 != 2 * l.len() as u64 || n1 != (w as u64 / 8) || used > datalen {
                 $sink.impl_failures.push(format!(
                   "fits-header-mismatch: {} u{} depth {} {}: NAXIS1 {} NAXIS2 {} data {}",
